@@ -373,6 +373,45 @@ func cmdForms(args []string) {
 			tw.Emit(Rec{"ev": "funcv", "id": id, "name": fmt.Sprintf("%s (items of mixed kinds %d)", name, mi+1), "plain": a2, "funcv": b2, "status": r2.status})
 		}
 	}
+	// Custom against CustomFunc over the space of Options (delimiters present or not, separators with and without blanks,
+	// one line or several): the two duplicated implementations agree everywhere
+	for _, multi := range []bool{false, true} {
+		for _, sep := range []string{",", ", ", ";", "", " | ", "\n"} {
+			for _, oc := range [][2]string{{"<", ">"}, {"", ""}, {"(", ""}, {"", "}"}, {"[[", "]]"}} {
+				for nitems := 0; nitems <= 2; nitems++ {
+					id++
+					tw.Traces++
+					o := jen.Options{Open: oc[0], Close: oc[1], Separator: sep, Multi: multi}
+					mk := func(k int) jen.Code { return jen.Id("i" + strconv.Itoa(k)) }
+					var a, b, c, d string
+					r := safely(func() ([]byte, error) {
+						items := []jen.Code{}
+						for k := 0; k < nitems; k++ {
+							items = append(items, mk(k))
+						}
+						a = rawOf(jen.Custom(o, items...))
+						b = rawOf(jen.CustomFunc(o, func(g *jen.Group) {
+							for k := 0; k < nitems; k++ {
+								g.Add(mk(k))
+							}
+						}))
+						c = rawOf(jen.Id("p").Custom(o, items...))
+						d = rawOf(jen.Id("p").CustomFunc(o, func(g *jen.Group) {
+							for k := 0; k < nitems; k++ {
+								g.Add(mk(k))
+							}
+						}))
+						return nil, nil
+					})
+					name := fmt.Sprintf("CustomFunc (options %q %q %q multi=%v, %d items)", oc[0], oc[1], sep, multi, nitems)
+					tw.Emit(Rec{"ev": "funcv", "id": id, "name": name, "plain": a, "funcv": b, "status": r.status})
+					id++
+					tw.Traces++
+					tw.Emit(Rec{"ev": "funcv", "id": id, "name": name + " as Statement methods", "plain": c, "funcv": d, "status": r.status})
+				}
+			}
+		}
+	}
 	// GoString, Render and RenderWithFile(fresh File) agree - also for the n-th statement printed in this process,
 	// with qualified identifiers whose paths compete for one package name
 	for i, path := range []string{"a/pkg", "b/pkg", "c/pkg", "fmt", "x/fmt", "b/pkg"} {
